@@ -172,8 +172,25 @@ PlOK(r) == r.out = "ok" /\ ParseLine(r.s, r.eq, r.cm) = <<r.found, r.key, r.val>
 LkOK(r) == r.out = "ok" /\ r.a = Lookup(r.t, r.c) /\ r.b = r.a
 TrimOK(r) == r.out = "ok" /\ r.o = Trim(r.s)
 
+(* the other val<T>; the numeric overloads of DMS *)
+VbOK(r) == LET x == ValBool(r.s) IN
+           CASE x[1] = "bool" -> r.out = "ok" /\ r.val = x[2] [] x[1] = "throw" -> r.out = "throw" [] OTHER -> r.out \in {"ok", "throw"}
+ViOK(r) == LET x == ValInt(r.s) IN
+           CASE x[1] = "int" -> r.out = "ok" /\ r.mag = x[3] /\ (x[3] # 0 => r.neg = x[2]) [] x[1] = "throw" -> r.out = "throw" [] OTHER -> r.out \in {"ok", "throw"}
+VsOK(r) == r.out = "ok" /\ r.o = ValStr(r.s)
+DnExpected(r) == IF r.D <= 4 THEN DecodeNum(r.dneg, r.D, r.mneg, r.M, r.sneg, r.S) ELSE DecodeNumSame(r.dneg, r.D, r.M, r.S)
+DnOK(r) ==
+  LET x == DnExpected(r) IN
+  /\ r.out = "ok" /\ r.vc = 0 /\ r.vq = <<x[2], x[3]>> /\ ((x[2] = 0 /\ x[3] = 0) \/ r.vn = x[1]) /\ ResOK(r.vr, x[2])
+  \* the overloads with fewer arguments are the same function with the trailing components zero
+  /\ (r.nargs < 3 => r.S = 0) /\ (r.nargs < 2 => r.M = 0)
+SpOK(r) ==
+  LET a == DecodeNumSame(r.neg, r.D, r.M, r.S) IN
+  /\ r.out = "ok" /\ r.fin /\ r.dint /\ r.mint
+  /\ SplitOK(a[1], a[2], a[3], r.d, r.m, r.rest, r.dn, r.mn, r.sn, 1)
+
 (* ------------------------------ GeoCoords --------------------------------- *)
-GcOK(r) ==
+GcOK0(r) ==
   LET x == Reset(r.s, r.c, r.w) IN
   CASE x[1] = "throw" -> r.out = "throw"
     [] x[1] = "any" -> r.out \in {"ok", "throw"}
@@ -188,9 +205,13 @@ GcOK(r) ==
     [] x[1] = "mgrs" -> r.out = "ok" /\ r.altsame /\ r.zone = x[2] /\ r.northp = x[3] /\ r.x = x[4] /\ r.y = x[5]
     [] x[1] = "nanpos" -> r.out = "ok" /\ r.isnan
 
+GcOK(r) == ViaOK(r.via, r.c, r.w) /\ GcOK0(r)
+
 NearEquator(r) == r.latm <= 1000 /\ r.latm >= -1000          \* within 0.001 degree: rounding may reach the equator
 GeoOK(r) ==
   /\ r.r0 = "ok" /\ r.rout = "ok" /\ r.qout = "ok"
+  \* "Internally longitudes are reduced to the range [-180, 180]": the longitude held is the one given, modulo 360
+  /\ r.plc = 0 /\ (r.plq[1] < 180 \/ r.plq = <<180, 0>>) /\ r.plex >= 0 /\ r.plex <= TolUlp
   /\ CASE r.kind \in {0, 1} -> r.exlat >= 0 /\ r.exlat <= TolUlp /\ r.exlon >= 0 /\ r.exlon <= TolUlp
        [] r.kind \in {2, 4} -> /\ r.qzone = r.zone /\ (r.qnorthp = r.northp \/ NearEquator(r))
                                /\ r.exx >= 0 /\ r.exx <= TolUlp /\ r.exy >= 0 /\ r.exy <= TolUlp
@@ -202,6 +223,24 @@ UsOK(r) ==
   \* the parser accepts it: same zone, hemisphere (the equator belongs to both), position within half a unit
   /\ r.qout = "ok" /\ r.qzone = r.zone /\ (r.qnorthp = r.northp \/ r.N4 <= 2 \/ r.onequator)
   /\ r.exx >= 0 /\ r.exx <= TolUlp /\ r.exy >= 0 /\ r.exy <= TolUlp
+  \* without SetAltZone the alternate zone is the zone itself: AltUTMUPSRepresentation gives the same string
+  /\ r.acode = r.code
+\* hemisphere override on the lattice: the string is the documented one and reads back as the same point
+UsoOK(r) ==
+  /\ r.out = "ok" /\ r.code \in UTMUPSStrOverride(r.zone, r.northp, r.np2, r.abbrev, r.E4, r.N4, r.prec)
+  /\ r.qout = "ok" /\ r.qzone = r.zone
+  /\ r.exx >= 0 /\ r.exx <= TolUlp /\ r.exy >= 0 /\ r.exy <= TolUlp
+\* alternate zone (SetAltZone) and hemisphere override off the lattice: the string reads back in the zone it names, as the
+\* same position within half a unit (MGRS: half a cell); req: the zone asked for (-1 STANDARD, -2 MATCH: the zone itself
+\* here, because the point lies in a standard zone)
+AltOK(r) ==
+  /\ r.r0 = "ok" /\ r.rout = "ok" /\ r.qout = "ok"
+  /\ r.altzone = (IF r.req >= 1 THEN r.req ELSE r.zone)
+  /\ r.qzone = (IF r.kind = 3 THEN r.zone ELSE r.altzone)
+  /\ (r.kind \in {0, 2} => r.qnorthp = r.northp \/ NearEquator(r))
+  /\ (r.kind # 2 \/ r.pm >= 0) => r.exx >= 0 /\ r.exx <= TolUlp /\ r.exy >= 0 /\ r.exy <= TolUlp
+\* the undefined position: documented spelling, accepted by Reset, undefined again
+GnOK(r) == r.rout = "ok" /\ r.code = InvRep(r.rep) /\ r.qout = "ok" /\ r.qnan /\ r.qzone = UT!INVALID
 LlrOK(r) == r.out = "ok" /\ r.exlat >= 0 /\ r.exlat <= TolUlp /\ r.exlon >= 0 /\ r.exlon <= TolUlp
 
 Obligation(r) ==
@@ -210,6 +249,8 @@ Obligation(r) ==
     [] r.e = "val" -> ValOK(r) [] r.e = "nm" -> NmOK(r) [] r.e = "fr" -> FrOK(r) [] r.e = "str" -> StrOK(r)
     [] r.e = "rtn" -> RtnOK(r) [] r.e = "pl" -> PlOK(r) [] r.e = "lk" -> LkOK(r) [] r.e = "trim" -> TrimOK(r)
     [] r.e = "gc" -> GcOK(r) [] r.e = "geo" -> GeoOK(r) [] r.e = "llr" -> LlrOK(r) [] r.e = "us" -> UsOK(r)
+    [] r.e = "vb" -> VbOK(r) [] r.e = "vi" -> ViOK(r) [] r.e = "vs" -> VsOK(r) [] r.e = "dn" -> DnOK(r) [] r.e = "sp" -> SpOK(r)
+    [] r.e = "uso" -> UsoOK(r) [] r.e = "alt" -> AltOK(r) [] r.e = "gn" -> GnOK(r)
     [] OTHER -> FALSE                    \* crash records and unknown kinds are never accepted
 
 Expected(r) ==
@@ -222,6 +263,10 @@ Expected(r) ==
     [] r.e = "str" -> StrFixed(r.neg, r.I, r.F, r.p)
     [] r.e = "gc" -> Reset(r.s, r.c, r.w)
     [] r.e = "us" -> UTMUPSStrQ(r.zone, r.northp, r.abbrev, r.E4, r.N4, r.prec)
+    [] r.e = "uso" -> UTMUPSStrOverride(r.zone, r.northp, r.np2, r.abbrev, r.E4, r.N4, r.prec)
+    [] r.e = "vb" -> ValBool(r.s) [] r.e = "vi" -> ValInt(r.s) [] r.e = "vs" -> ValStr(r.s)
+    [] r.e = "dn" -> DnExpected(r)
+    [] r.e = "gn" -> InvRep(r.rep)
     [] OTHER -> <<>>
 
 Law(r) == IF r.e = "crash" THEN "no-crash" ELSE "text-" \o r.e
